@@ -16,7 +16,27 @@
 """
 Python related helper functions.
 """
+import re
 from functools import wraps
+
+# what PIL and the OS put into the text of an IOError to name the file: a quoted name,
+# the repr of a file object or a bare path
+_file_reference = re.compile(r"""<[^<>]*>|'[^']*'|"[^"]*"|\S*[/\\]\S*""")
+
+
+def error_text_without_file_names(ex):
+    """
+    Return the text of the exception `ex` without references to files of the server,
+    for messages that are sent to a client.
+
+    >>> error_text_without_file_names(IOError("cannot identify image file '/srv/cache/01/000.png'"))
+    'cannot identify image file'
+    >>> error_text_without_file_names(IOError("cannot identify image file <_io.BufferedReader name='/srv/0.png'>"))
+    'cannot identify image file'
+    >>> error_text_without_file_names(IOError('image file is truncated (5 bytes not processed)'))
+    'image file is truncated (5 bytes not processed)'
+    """
+    return ' '.join(_file_reference.sub('', str(ex)).split())
 
 
 def reraise_exception(new_exc, exc_info):
